@@ -14,6 +14,7 @@ import (
 	"sync"
 	"time"
 
+	"github.com/metrico/qryn/writer/service"
 	"github.com/metrico/qryn/writer/utils/promise"
 )
 
@@ -87,4 +88,45 @@ func (b *c0102Budget) await(p *promise.Promise[uint32]) (bool, error) {
 // c0102ConfirmScale times the deadline and says whether the clock-based verdict showed again.
 func c0102Confirm(alone func(scale int) bool) bool {
 	return alone(c0102ConfirmScale)
+}
+
+// c0102AwaitAnswer waits for the answer of a handler that runs over real insert services with Run loops. The verdict
+// "no answer" must not rest on the clock alone: it is reached (a) when `limit` has passed, or (b) as soon as the services
+// are QUIESCENT and stay so — nothing queued (no promise in svc.results, size 0), no flusher inside an INSERT, no
+// progress of the INSERT counter — for `settle` consecutive checks 250 ms apart after an initial grace: then no code is
+// left that could complete the promise the handler waits for, whatever the deadline. Returns (code, answered,
+// quiescent).
+func c0102AwaitAnswer(done <-chan int, limit time.Duration, subs []*service.InsertServiceV2, progress func() int) (int, bool, bool) {
+	start := time.Now()
+	const settle = 8
+	quiet, last := 0, -1
+	for time.Since(start) < limit {
+		if code, ok := c0102Recv(done, 250*time.Millisecond); ok {
+			return code, true, false
+		}
+		if time.Since(start) < 4*time.Second {
+			continue
+		}
+		idle := true
+		for _, s := range subs {
+			st := s.VerifState()
+			if st.Pending != 0 || st.Size != 0 || st.State == service.INSERT_STATE_INSERTING {
+				idle = false
+			}
+		}
+		n := progress()
+		if idle && n == last {
+			quiet++
+		} else {
+			quiet = 0
+		}
+		last = n
+		if quiet >= settle {
+			if code, ok := c0102Recv(done, 250*time.Millisecond); ok {
+				return code, true, false
+			}
+			return -1, false, true
+		}
+	}
+	return -1, false, false
 }
